@@ -460,7 +460,15 @@ def check_scrub(ctx):
             ctx.check(bool(a & c), inst, "PROVENANCE", b.path, "the reservation cleared belongs to the allocation that was released", b.where(cr[0]), {"cleared": sorted(a), "released": sorted(c)})
 
 
+def check_successor(ctx):
+    """a failed record write leaves a superseded, never-written generation in the successor chain: the retirement gate must
+    walk THROUGH it (it is neither durable nor a delete), or the last durable generation is destroyed while the device is
+    failing. Same rule as C02.successor, reported here for the I/O-failure clause 'never destroy durable data'."""
+    C02.check_successor(ctx, "C09.successor")
+
+
 def check(ctx):
+    check_successor(ctx)
     check_completion(ctx)
     check_metadata_commit(ctx)
     check_scrub(ctx)
